@@ -24,6 +24,7 @@ BODIES = {
     'switch': ('pypyr.steps.switch', 'BSwitch'), 'set': ('pypyr.steps.set', 'BSet'),
     'clear': ('pypyr.steps.contextclear', 'BClear'), 'clearall': ('pypyr.steps.contextclearall', 'BClearAll'),
     'pype': ('pypyr.steps.pype', 'BPype'),
+    'merge': ('pypyr.steps.contextmerge', 'BMerge'), 'default': ('pypyr.steps.default', 'BDefault'),
 }
 WHILE_KEYS = ['max', 'stop', 'sleep', 'errorOnMax']
 RETRY_KEYS = ['max', 'sleep', 'backoff', 'backoffArgs', 'jrc', 'sleepMax', 'stopOn', 'retryOn']
@@ -54,6 +55,9 @@ def emit_pipeline(groups):
     lines = []
     pos = {}
     for gname, steps in groups:
+        if gname == 'context_parser':
+            lines.append('context_parser: vparser')
+            continue
         if steps is None:
             lines.append(f'{gname}:')
             continue
@@ -145,7 +149,10 @@ def coq_run(case):
     groups = 'None' if case.get('groups') is None else \
         '(Some ' + pv.coq_list([pv.coq_val(g) for g in case['groups']]) + ')'
     jn, jd = case.get('jit', [1, 4])
-    return (f'(api_run EFUEL {coq_lib(case)} {pv.coq_str(case["main"])} '
+    args = case.get('args_in')
+    cargs = 'None' if args is None else '(Some ' + pv.coq_list([pv.coq_str(a) for a in args]) + ')'
+    dict_none = pv.coq_bool(case.get('dict_in') is None)
+    return (f'(api_run_args EFUEL {coq_lib(case)} {pv.coq_str(case["main"])} {cargs} {dict_none} '
             f'{pv.coq_dict(case.get("dict_in") or [])} {groups} {coq_optstr(case.get("success"))} '
             f'{coq_optstr(case.get("failure"))} {pv.coq_Q(jn, jd)})')
 
@@ -225,7 +232,7 @@ def run_case(case, extra=None):
     try:
         dict_in = pv.to_py({'d': case['dict_in']}) if case.get('dict_in') is not None else None
         try:
-            result = runner.run(case['main'], dict_in=dict_in, groups=case.get('groups'),
+            result = runner.run(case['main'], args_in=case.get('args_in'), dict_in=dict_in, groups=case.get('groups'),
                                 success_group=case.get('success'), failure_group=case.get('failure'),
                                 loader='vloader')
             outcome = ['ok']
